@@ -585,6 +585,18 @@ func Leaves(full bool) []*Spec {
 	})
 	boomMember.Fault = true
 	add(boomMember)
+	// json.RawMessage values that are not one complete JSON document: encoding/json rejects them, so they are
+	// reported like any other value reflection cannot encode; a nil one is null
+	for _, rm := range []struct{ name, raw string }{{"truncated", `{"a":`}, {"trailing-garbage", `{} x`}, {"empty-non-nil", ""}, {"unquoted", `a"b`}, {"two-documents", `1 2`}} {
+		rm := rm
+		bad := leaf("reflect:rawmessage-invalid("+rm.name+")", func(k string) zapcore.Field { return zap.Reflect(k, json.RawMessage([]byte(rm.raw))) }, func(k string, r Ref) []jsonx.Member {
+			return one(k+"Error", jsonx.Containing("json"))
+		})
+		bad.Fault = true
+		add(bad)
+	}
+	add(fixed("reflect:rawmessage-nil", func(k string) zapcore.Field { return zap.Reflect(k, json.RawMessage(nil)) }, jsonx.NullNode()))
+	add(fixed("reflect:rawmessage-spaced", func(k string) zapcore.Field { return zap.Reflect(k, json.RawMessage(` { "a" : [ 1 , 2 ] } `)) }, jsonx.O().Add("a", jsonx.A(jsonx.N("1"), jsonx.N("2")))))
 	fj := leaf("reflect:failing-json-marshaler", func(k string) zapcore.Field { return zap.Reflect(k, failingJSON{}) }, func(k string, r Ref) []jsonx.Member {
 		return one(k+"Error", jsonx.S("json: error calling MarshalJSON for type encx.failingJSON: mj \"failed\""))
 	})
